@@ -26,8 +26,15 @@ Report(probs) == IF probs = {} THEN TRUE ELSE PrintT(<<"PROBLEMS", ToJson([idx |
 \* markers: where = "stream" (object n) | "string" (object n, key) | "info" (trailer /Info, key) | "content" (page number)
 ContentRefsOf(pg) == LET c == Get(PageList[pg].node, K_Contents) IN
                      IF c.t = "ref" /\ Deref(c).t = "arr" THEN Deref(c).v ELSE IF c.t = "arr" THEN c.v ELSE <<c>>
+RECURSIVE StrIn(_, _)
+StrIn(bytes, v) == CASE v.t = "str" -> Occurs(bytes, v.b)
+                     [] v.t = "arr" -> \E x \in 1..Len(v.v) : StrIn(bytes, v.v[x])
+                     [] v.t = "dict" -> \E x \in 1..Len(v.v) : StrIn(bytes, v.v[x].v)
+                     [] v.t = "stream" -> StrIn(bytes, v.dict)
+                     [] OTHER -> FALSE
 MarkerFound(key, m) ==
-  CASE m.where = "stream" -> LET s == PlainStream(key, m.n) IN s.ok /\ Occurs(m.bytes, s.out)
+  CASE m.where = "anywhere" -> \E n \in DOMAIN res : res[n].found /\ StrIn(m.bytes, PlainObject(key, n))
+    [] m.where = "stream" -> LET s == PlainStream(key, m.n) IN s.ok /\ Occurs(m.bytes, s.out)
     [] m.where = "content" -> m.page <= Len(PageList) /\ \E x \in 1..Len(ContentRefsOf(m.page)) :
                                 LET c == ContentRefsOf(m.page)[x] s == IF c.t = "ref" THEN PlainStream(key, c.n) ELSE [ok |-> FALSE, out |-> <<>>]
                                 IN s.ok /\ Occurs(m.bytes, s.out)
